@@ -1552,7 +1552,7 @@ def run(chk, runner_ok):
         if model:
             flush(chk, model, "PROJECT", reqs, impls, descs, final=True)
         # ---- directories reached through un-normalised spellings -------------------------------
-        for i in range(chk.n(120, 1500)):
+        for i in range(chk.n(90, 800)):
             p = gen_project(rng, kind="spelled", spelled=rng.choice(["slash", "dotdot", "updir"]))
             todo = [(l, rng.random() < 0.3) for l in p.locales] + [(None, False)]
             a, b, c = run_one(chk, p, T, todo, stats)
@@ -1565,7 +1565,7 @@ def run(chk, runner_ok):
         if model:
             flush(chk, model, "PROJECT-spelled", reqs, impls, descs, final=True)
         # ---- several projects in one run -------------------------------------------------
-        for i in range(chk.n(150, 1800)):
+        for i in range(chk.n(110, 1000)):
             p = gen_multi(rng)
             todo = [(l, rng.random() < 0.3) for l in p.locales] + [(None, False)]
             a, b, c = run_one(chk, p, T, todo, stats)
@@ -1579,7 +1579,7 @@ def run(chk, runner_ok):
             flush(chk, model, "PROJECT-multi", reqs, impls, descs, final=True)
         # ---- the two quirks, in streams of their own ------------------------------------
         # ---- no root: patterns that start with a wildcard (prefix "") ---------------------------
-        for i in range(chk.n(40, 400)):
+        for i in range(chk.n(30, 200)):
             p = gen_unrooted(rng)
             a, b, c = run_one(chk, p, T, [(l, False) for l in p.locales] + [(None, False)], stats, api=True)
             reqs += a
@@ -1599,7 +1599,7 @@ def run(chk, runner_ok):
             flush(chk, model, "PROJECT-quirk", reqs, impls, descs, final=True)
         # ---- TOML -----------------------------------------------------------------------
         treqs, timpls, tdescs = [], [], []
-        for i in range(chk.n(300, 3000)):
+        for i in range(chk.n(250, 2000)):
             p = gen_project(rng, kind="toml")
             p.files = p.files[:3]
             mutate_for_toml(rng, p)
